@@ -92,7 +92,7 @@ Proof.
   destruct (PT1 q QIn) as [Hlu TK].
   assert (PS : Forall (pos_shares id) (rw_up w1)).
   { apply Forall_forall. intros a Ha. destruct (In_nth _ _ acc_empty Ha) as [u [Hu EQ]]. rewrite LN1 in Hu.
-    intros r R. destruct (RM1 u q Hu QIn) as [r0 [R0 S0]]. unfold acc_u in R0. rewrite EQ, QI in R0. rewrite R in R0. inversion R0; subst r0.
+    intros r R. destruct (RM1 u q Hu QIn) as [r0 [R0 [S0 _]]]. unfold acc_u in R0. rewrite EQ, QI in R0. rewrite R in R0. inversion R0; subst r0.
     rewrite S0. apply LP. exact QIn. }
   rewrite IS1 in EC.
   destruct (claim_uptimes_spec d id _ _ _ _ _ _ _ _ _ EC Hi PS) as [L1 [L2 [L3 [PW [T [T0 [INEQ [C0 [F0 [B0 [RD FO]]]]]]]]]]].
@@ -119,9 +119,10 @@ Proof.
   split; [lia|]. split; [exact C0|]. split; [exact F0|]. split; [exact B0|]. split; [exact RD|]. split; [exact FO|].
   split.
   - split; [exact OK1|]. split; [simpl; lia|]. split; [unfold w'; simpl; lia|]. split; [apply PT_set_up; exact PT1|].
-    intros u p Hu Hp. destruct (RM1 u p Hu Hp) as [r [R S]]. destruct (PW u) as [SO [_ [_ [KEEP _]]]].
+    intros u p Hu Hp. destruct (RM1 u p Hu Hp) as [r [R [S UNN]]]. destruct (PW u) as [SO [_ [_ [KEEP _]]]].
     destruct (Z.eq_dec (ps_id p) id) as [EQ|NE].
-    + unfold acc_u in R. rewrite EQ in R. destruct (KEEP r R) as [r' [R' S']]. exists r'. unfold acc_u, w'. simpl. rewrite EQ. split; [exact R'|lia].
+    + unfold acc_u in R. rewrite EQ in R. destruct (KEEP r R) as [r' [R' [S' U']]]. exists r'. unfold acc_u, w'. simpl. rewrite EQ.
+      split; [exact R'|]. split; [lia|]. intro d0. rewrite U', dsel_dc0. lia.
     + exists r. unfold acc_u, w'. simpl. rewrite (SO _ NE). auto.
   - split; [exact TT1|]. split; [exact SP1|]. split; [exact IS1|]. split; [exact NI1|]. split; [|split; [lia|apply (claim_uptimes_byup_nonneg d _ _ _ _ _ _ _ _ _ _ EC)]].
     intros u j NE. rewrite <- RG1. unfold acc_u, w'. simpl. destruct (PW u) as [SO _]. apply SO. exact NE.
@@ -138,8 +139,9 @@ Lemma stage_upd_core : forall d w1 cur lo hi id liquidity delta ins outs ups,
      2 * usum NU (fun u => owedU u d w' cur tp) <= 2 * usum NU (fun u => owedU u d w1 cur tp) + Z.of_nat NU * P18) /\
   (forall u j, j <> id -> acc_get (acc_u u w') j = acc_get (acc_u u w1) j) /\
   (forall u, (u < NU)%nat ->
-     (forall r, acc_get (acc_u u w1) id = Some r -> exists r', acc_get (acc_u u w') id = Some r' /\ ar_shares r' = ar_shares r + delta) /\
-     (acc_get (acc_u u w1) id = None -> exists r', acc_get (acc_u u w') id = Some r' /\ ar_shares r' = liquidity /\ 0 < delta)) /\
+     (forall r, acc_get (acc_u u w1) id = Some r -> exists r', acc_get (acc_u u w') id = Some r' /\ ar_shares r' = ar_shares r + delta /\
+        (0 <= dsel d (ar_unclaimed r) -> 0 <= dsel d (ar_unclaimed r'))) /\
+     (acc_get (acc_u u w1) id = None -> exists r', acc_get (acc_u u w') id = Some r' /\ ar_shares r' = liquidity /\ 0 < delta /\ ar_unclaimed r' = dc0)) /\
   length (rw_up w') = NU /\ (forall u l h, insU u d w' cur l h = insU u d w1 cur l h).
 Proof.
   intros d w1 cur lo hi id liquidity delta ins outs ups EI EO EUp LN Hlu NN w'.
@@ -184,4 +186,62 @@ Proof.
   { apply usum_ext. intros u _. rewrite !sel_G_CU. unfold acc_u. simpl. reflexivity. }
   rewrite GE. split; [lia|]. split; [|simpl; repeat split; try reflexivity; exact RG].
   split; [exact OK|]. split; [exact Hi|]. split; [simpl; lia|]. split; assumption.
+Qed.
+
+(* ---------- a static evolution of the trackers with unchanged records ---------- *)
+Lemma stage_grow_SE : forall cur T w w' P d, (forall u, SE (CU u d) cur T w w') -> PT w P -> RMU w P ->
+  (forall p, In p P -> ~ In (ps_lower p) T /\ ~ In (ps_upper p) T) ->
+  (forall u j, acc_get (acc_u u w') j = acc_get (acc_u u w) j) ->
+  OwedI d w' cur P = OwedI d w cur P + usum NU (fun u => sel_G (CU u d) w' - sel_G (CU u d) w) * sum_liq (f_range cur) P /\
+  PT w' P /\ RMU w' P.
+Proof.
+  intros cur T w w' P d HSE HPT HRM HT RG. split; [|split].
+  - unfold OwedI. rewrite (Z.mul_comm (usum NU _) (sum_liq (f_range cur) P)), <- usum_scale, <- usum_plus. apply usum_ext. intros u Hu.
+    rewrite (Z.mul_comm (sum_liq (f_range cur) P)), sum_liq_zsum', <- zsum_scale, <- zsum_plus. apply zsum_ext. intros p Hp.
+    destruct (HPT p Hp) as [Hlu TK]. destruct (HT p Hp) as [Tl Tu].
+    destruct (SE_inside_gen (CU u d) cur T w w' _ _ (HSE u) Hlu TK Tl Tu) as [I _].
+    rewrite (owedU_frame u d w w' cur cur p _ (RG u _) I), (RMU_shares w P u p HRM Hu Hp).
+    destruct (in_rng _ _ _); lia.
+  - intros p Hp. destruct (HPT p Hp) as [Hlu TK]. destruct (HT p Hp) as [Tl Tu]. split; [exact Hlu|].
+    apply (SE_inside_gen (CU O d) cur T w w' _ _ (HSE O) Hlu TK Tl Tu).
+  - intros u p Hu Hp. rewrite RG. apply HRM; assumption.
+Qed.
+
+(* a stage that leaves the uptime accumulators and the records alone (spread accumulator, trackers of unused ticks) *)
+Lemma stage_inc_neutral : forall cur T w w' P d, (forall u, SE (CU u d) cur T w w') -> rw_up w' = rw_up w -> IW w P ->
+  rw_recs w' = rw_recs w -> rw_inc_scaling w' = rw_inc_scaling w ->
+  (forall p, In p P -> ~ In (ps_lower p) T /\ ~ In (ps_upper p) T) ->
+  OwedI d w' cur P = OwedI d w cur P /\ IW w' P.
+Proof.
+  intros cur T w w' P d HSE UP [OK [Hi [LN [HPT HRM]]]] RC IS HT.
+  assert (RG : forall u j, acc_get (acc_u u w') j = acc_get (acc_u u w) j) by (intros; unfold acc_u; rewrite UP; reflexivity).
+  destruct (stage_grow_SE cur T w w' P d HSE HPT HRM HT RG) as [OW [PT' RM']].
+  assert (Z0 : usum NU (fun u => sel_G (CU u d) w' - sel_G (CU u d) w) = 0).
+  { rewrite (usum_ext _ _ (fun _ => 0)); [clear; induction NU; simpl; lia|]. intros u _. unfold sel_G. rewrite UP. lia. }
+  rewrite OW, Z0. split; [lia|]. split; [rewrite RC; exact OK|]. split; [rewrite IS; exact Hi|]. split; [rewrite UP; exact LN|]. split; assumption.
+Qed.
+
+(* initOrUpdateTick, tracker part *)
+Lemma stage_ensure_tick : forall cur w liq now i w' P d, ensure_tick w cur liq now i = Some w' -> IW w P -> liq = sum_liq (f_range cur) P ->
+  OwedI d w' cur P + remD d (rw_recs w') * rw_inc_scaling w <= OwedI d w cur P + remD d (rw_recs w) * rw_inc_scaling w /\
+  IW w' P /\ rw_spread w' = rw_spread w /\ rw_inc_scaling w' = rw_inc_scaling w /\ rw_next_inc w' = rw_next_inc w /\
+  (forall u j, acc_get (acc_u u w') j = acc_get (acc_u u w) j).
+Proof.
+  intros cur w liq now i w' P d H [OK [Hi [LN [HPT HRM]]]] HL.
+  assert (SEu : forall u, SE (CU u d) cur (fresh w i) w w') by (intro u; eapply SE_ensure_tick; exact H).
+  unfold ensure_tick in H. destruct (tt_get (rw_tt w) i) eqn:EG.
+  - inversion H; subst w'. split; [lia|]. split; [exact (conj OK (conj Hi (conj LN (conj HPT HRM))))|]. repeat split; reflexivity.
+  - destruct (update_uptime w liq now) as [w1|] eqn:EU; [|discriminate H]. inversion H; subst w'. clear H.
+    destruct (update_uptime_spec _ _ _ _ d EU OK Hi) as [TT [SP [IS [LU [PW [SM [OK' NI]]]]]]].
+    assert (RG : forall u j, acc_get (acc_u u (set_tt w1 (tt_set (rw_tt w1) i (mkRT (if i <=? cur then ac_value (rw_spread w) else dc0) (rt_up (init_tracker w1 cur i)))))) j
+                             = acc_get (acc_u u w) j).
+    { intros u j. unfold acc_get, acc_u. simpl. destruct (PW u) as [A _]. unfold acc_u in A. rewrite A. reflexivity. }
+    assert (HT : forall p, In p P -> ~ In (ps_lower p) (fresh w i) /\ ~ In (ps_upper p) (fresh w i)) by (intros p Hp; apply (PT_fresh w P i p HPT Hp)).
+    destruct (stage_grow_SE cur _ w _ P d SEu HPT HRM HT RG) as [OW [PT' RM']].
+    rewrite OW, <- HL. rewrite LN in SM.
+    assert (GE : usum NU (fun u => sel_G (CU u d) (set_tt w1 (tt_set (rw_tt w1) i (mkRT (if i <=? cur then ac_value (rw_spread w) else dc0) (rt_up (init_tracker w1 cur i))))) - sel_G (CU u d) w)
+                 = usum NU (fun u => sel_G (CU u d) w1 - sel_G (CU u d) w)) by (apply usum_ext; intros u _; reflexivity).
+    rewrite GE. cbn [rw_recs set_tt rw_spread rw_inc_scaling rw_next_inc].
+    split; [lia|]. split; [|split; [exact SP|split; [exact IS|split; [exact NI|exact RG]]]].
+    split; [exact OK'|]. split; [simpl; lia|]. split; [simpl; lia|]. split; assumption.
 Qed.
